@@ -42,6 +42,7 @@ CLAIM = dict(
 
 THEOREMS = ["overlaps_iff_common", "alloc_sound", "alloc_sound_range", "alloc_unique", "alloc_only_failure",
             "alloc_complete", "alloc_complete_window", "alloc_complete_placer_budget"]
+THEOREMS += ['gen_slices_overlap', 'gen_align']   # translator tie: generated function bodies = model (Props/C05Gen.lean)
 
 RULE = ("machines 1-3 x 1-3 with 1-3 resources, per-chip exceptions and dead chips; 1-6 used chips, 0-12 vertices "
         "per chip placed in shuffled (interleaved) order, demands incl. 0 and absent resources; up to 6 global and "
